@@ -147,6 +147,10 @@ func (i *NetflowV5) run() {
 		netflowV5UDPCh <- NetflowV5UDPMsg{raddr, b[:n]}
 	}
 
+	// only the sender closes the channel: a datagram read just before
+	// the stop must still be handed over, not hit a closed channel
+	close(netflowV5UDPCh)
+
 }
 
 func (i *NetflowV5) shutdown() {
@@ -160,9 +164,8 @@ func (i *NetflowV5) shutdown() {
 	logger.Println("stopping netflow v5 service gracefully ...")
 	time.Sleep(1 * time.Second)
 
-	// logging and close UDP channel
+	// logging, the UDP channel is closed by run() once it left its read loop
 	logger.Println("netflow v5 has been shutdown")
-	close(netflowV5UDPCh)
 }
 
 func (i *NetflowV5) netflowV5Worker(wQuit chan struct{}) {
